@@ -35,6 +35,9 @@ def items(tier, seed):
         out.append({"part": "labels", "cls": cls, "tier": tier})
     for i in range(len(R.organics())):
         out.append({"part": "organic", "idx": i, "tier": tier})
+    # tetrahedral and square-planar complexes over the same atom indices imported one after the other in one process
+    out.append({"part": "sequence", "order": ["TH1", "SP1", "TH2", "SP2", "SP3", "TH1"], "tier": tier})
+    out.append({"part": "sequence", "order": ["SP3", "TH2", "SP1", "TH1", "SP2"], "tier": tier})
     return out
 
 
@@ -70,6 +73,18 @@ def run_item(item):
         return _complex(item, out)
     if item["part"] == "labels":
         return _labels(item, out)
+    if item["part"] == "sequence":
+        for tag in item["order"]:
+            sub = {"part": "complex", "cls": tag[:2], "label": int(tag[2:]), "tier": "quick-seq"}
+            r = _complex(sub, {"evals": 0, "distinct": 0, "outcomes": {}, "viol": [], "samples": []})
+            out["evals"] += r["evals"]
+            out["distinct"] += r["distinct"]
+            for v in r["viol"]:
+                v["sig"] = v["sig"].replace("C12/complex/", "C12/complex-sequence/", 1)
+                v["item"] = item
+                out["viol"].append(v)
+        out["outcomes"]["sequence-imports"] = out["evals"]
+        return out
     return _organic(item, out)
 
 
@@ -81,6 +96,8 @@ def _complex(item, out):
     smi = R.complex_smiles(cls, k)
     base = set_maps(R.parse(smi))
     opts = OPTS if (tier == "thorough" or (k <= 2 and cls != "OH")) else [OPTS[0], OPTS[5], OPTS[15], OPTS[8]]
+    if tier == "quick-seq":
+        opts = [OPTS[0], OPTS[4]]
     variants = [("base", None, base)]
     ren = list(R.renumberings(base, 7, tier))
     if tier == "quick" and len(ren) > 1000 and k > 1:
